@@ -455,6 +455,12 @@ def compute_integral_ir(
                 needs_facet_permutations = (
                     "+" in restrictions and "-" in restrictions
                 ) or is_mixed_dim
+            # The kernel reads quadrature_permutation whenever one of its tables
+            # kept its permutation axis (e.g. one-sided interior facet terms)
+            if not needs_facet_permutations:
+                needs_facet_permutations = any(
+                    table.shape[0] > 1 for table in active_tables.values()
+                )
 
     return IntermediateIntegralIR(
         needs_facet_permutations=needs_facet_permutations,
